@@ -72,6 +72,12 @@ var policies = []polv{
 	{nps: []wm.NP{{NS: "ingress-controller-ns", Name: "ic-egress-anywhere", PodSel: wm.Sel{}, Types: []string{"Egress"}, Egress: []wm.NPRule{{}}},
 		{NS: "ingress-controller-ns", Name: "ic-ingress-deny", PodSel: wm.Sel{}, Types: []string{"Ingress"}}}},
 	{nps: []wm.NP{{NS: "ingress-controller-ns", Name: "ic-egress-deny", PodSel: wm.Sel{}, Types: []string{"Egress"}}}},
+	// admin policies with egress rules whose subject also covers an unlabeled pod of a namespace unknown to the input: what
+	// such a pod may send into W is cut by them (there is no NetworkPolicy layer for that pod)
+	{anps: []wm.ANP{{Name: "eg", Prio: 5, Subject: wm.APeer{Namespaces: all}, Egress: []wm.ARule{{Action: "Deny", Peers: []wm.APeer{{Namespaces: wm.ML("team", "a")}}, Ports: &[]wm.APort{{Kind: "num", Proto: "TCP", Num: 8080}}}}}}},
+	{anps: []wm.ANP{{Name: "eg-notin", Prio: 5, Subject: wm.APeer{PodsNS: wm.ME("team", "NotIn", "a", "b"), PodsPod: all}, Egress: []wm.ARule{{Action: "Deny", Peers: []wm.APeer{{PodsNS: all, PodsPod: wm.ML("app", "a")}}}}},
+		{Name: "eg-team-b", Prio: 3, Subject: wm.APeer{Namespaces: wm.ML("team", "b")}, Egress: []wm.ARule{{Action: "Deny", Peers: []wm.APeer{{Namespaces: all}}}}}}},
+	{banp: &wm.ANP{Name: "default", Subject: wm.APeer{Namespaces: all}, Egress: []wm.ARule{{Action: "Allow", Peers: []wm.APeer{{Namespaces: all}}, Ports: &[]wm.APort{{Kind: "num", Proto: "TCP", Num: 80}}}, {Action: "Deny", Peers: []wm.APeer{{Namespaces: all}}}}}},
 	{nps: []wm.NP{{NS: "ns1", Name: "negative", PodSel: wm.Sel{}, Types: []string{"Ingress"}, Ingress: []wm.NPRule{{Peers: []wm.NPPeer{{NSSel: all, Pod: wm.ME("app", "NotIn", "zz")}}, Ports: []wm.NPPort{{HasPort: true, Num: 8080}}}, {Peers: []wm.NPPeer{{NSSel: wm.ME("team", "DoesNotExist"), Pod: wm.ME("role", "DoesNotExist")}}, Ports: []wm.NPPort{{HasPort: true, Num: 80}}}}}}},
 }
 
@@ -97,9 +103,15 @@ func Eval(w *wm.World, x *fw.Rec) {
 		x.Fail("result not well-formed (C05 invariant): "+b, "", strings.Join(tr.WF, "\n"))
 	}
 	lines := 0
+	raw := w
+	w = raw.NormalizeNS() // objects written without metadata.namespace live in "default" (the manifests keep the omission)
 	for wi := range w.WLs {
 		ps := w.WLs[wi].PeerString()
-		exp, targeted, amb := w.RefIngressConn(wi, wm.IngressByStatement, true)
+		// the source is an unlabeled pod of a namespace unknown to the input: no NetworkPolicy can govern it, but admin policies
+		// whose subject covers every namespace (or excludes only known ones) do, on their egress side. The full reference is
+		// used unless the input has NetworkPolicies in the namespace name the tool reserves for that pod (recorded finding).
+		ingressOnly := hasPolicyIn(w, "ingress-controller-ns")
+		exp, targeted, amb := w.RefIngressConn(wi, wm.IngressByStatement, ingressOnly)
 		if amb {
 			x.Count("route_designation_ambiguous_skipped", 1)
 			continue
@@ -125,7 +137,7 @@ func Eval(w *wm.World, x *fw.Rec) {
 		}
 		// defect model of the recorded finding: does it predict exactly what the tool did (line and warning)?
 		known := ""
-		if dm, dmT, _ := w.RefIngressConn(wi, wm.IngressDefectTargetPort, true); dm == got && warned == (dmT && dm == "No Connections") {
+		if dm, dmT, _ := w.RefIngressConn(wi, wm.IngressDefectTargetPort, ingressOnly); dm == got && warned == (dmT && dm == "No Connections") {
 			known = kfTargetPort
 		} else if dm, dmT, _ := w.RefIngressConn(wi, wm.IngressByStatement, false); dm == got && warned == (dmT && dm == "No Connections") && hasPolicyIn(w, "ingress-controller-ns") {
 			// defect model: the source is not "a pod in a namespace unknown to the input" but a pod of namespace ingress-controller-ns,
@@ -205,6 +217,32 @@ func GenRoute(c *fw.Ctx) *wm.World {
 	return w
 }
 
+// GenDefaultNS: everything lives in the namespace "default", each object spelling it or leaving metadata.namespace out.
+func GenDefaultNS(c *fw.Ctx) *wm.World {
+	ns := func(label string) string { return fw.Pick(c, []string{"default", ""}, "namespace of the "+label+": spelled | omitted") }
+	wns, sns, ins, rns := ns("workload"), ns("Service"), ns("Ingress"), ns("Route")
+	via := c.Choose(3, "reached through: Ingress | Route | both")
+	pol := c.Choose(3, "policy: none | default accepts 8080 from everywhere | deny all ingress")
+	hasObj := c.Choose(2, "Namespace object for default") == 1
+	w := &wm.World{NSs: []wm.NS{{Name: "default", Labels: map[string]string{"team": "a"}, HasObj: hasObj}, {Name: "ns2", Labels: map[string]string{"team": "b"}, HasObj: true}},
+		WLs: []wm.Workload{{Kind: "Deployment", NS: wns, Name: "w1", Labels: map[string]string{"app": "a"}, Ports: cportAlpha[0], Replicas: 1},
+			{Kind: "Deployment", NS: "ns2", Name: "w1", Labels: map[string]string{"app": "a"}, Ports: cportAlpha[0], Replicas: 1}},
+		Svcs: []wm.Svc{{NS: sns, Name: "s", Sel: map[string]string{"app": "a"}, Ports: []wm.SvcPort{{Name: "p1", Port: 80, Target: wm.TNum(8080)}, {Name: "p2", Port: 81, Target: wm.TName("http")}}}}}
+	if via != 1 {
+		w.Ings = []wm.Ing{{NS: ins, Name: "i", Default: &wm.Backend{Svc: "s", PortNum: 80}}}
+	}
+	if via != 0 {
+		w.Routes = []wm.Route{{NS: rns, Name: "r", To: []string{"s"}, Target: wm.TName("p2")}}
+	}
+	switch pol {
+	case 1:
+		w.NPs = []wm.NP{{NS: wns, Name: "a8080", PodSel: wm.Sel{}, Types: []string{"Ingress"}, Ingress: []wm.NPRule{{Peers: []wm.NPPeer{{NSSel: all}}, Ports: []wm.NPPort{{HasPort: true, Num: 8080}}}}}}
+	case 2:
+		w.NPs = []wm.NP{{NS: wns, Name: "deny", PodSel: wm.Sel{}, Types: []string{"Ingress"}}}
+	}
+	return w
+}
+
 // GenTwoNamespaces: workloads of the same kind and name in two namespaces, each behind its own Service + Ingress/Route,
 // with container ports of the same name but different numbers.
 func GenTwoNamespaces(c *fw.Ctx) *wm.World {
@@ -264,6 +302,7 @@ func Run(r *fw.Run) {
 		return w
 	}, Eval)
 	fw.Explore(r, "same-name-two-namespaces", fw.Full, GenTwoNamespaces, Eval)
+	fw.Explore(r, "namespace-default-spelled-or-omitted", fw.Full, GenDefaultNS, Eval)
 	fw.Explore(r, "route", fw.Full, func(c *fw.Ctx) *wm.World {
 		w := GenRoute(c)
 		if r.Quick() {
